@@ -11,6 +11,10 @@ From Coupe Require Import Lib.Prelude Model.ArcSwap Proofs.ArcSwapCut Proofs.Arc
   Proofs.ArcSwapAcct.
 Open Scope Z_scope.
 
+Section WithW.
+Context {W : wops}.
+
+
 Definition len {A} (l : list A) : Z := Z.of_nat (length l).
 
 Lemma len_nonneg {A} (l : list A) : 0 <= len l.
@@ -173,7 +177,7 @@ Proof.
   unfold decide. destruct b as [bt bg]. destruct (bg <=? 0).
   - intros [= <-]. rewrite mu_set_pc. cbn [set_md w_cut w_cur rank]. rewrite scan_rest_set_md. lia.
   - destruct (nth_opt (cf_vw cf) v), (nth_opt (w_pw w) bt), (nth_opt tmax bt); try discriminate.
-    destruct (_ <? _); intros [= <-]; rewrite mu_set_pc; cbn [set_md w_cut w_cur rank];
+    destruct (w_ltb _ _); intros [= <-]; rewrite mu_set_pc; cbn [set_md w_cut w_cur rank];
       rewrite ?scan_rest_set_md; lia.
 Qed.
 
@@ -384,3 +388,5 @@ Proof.
   intros Hinv. eapply H; eauto.
 Qed.
 End Global.
+
+End WithW.
